@@ -47,6 +47,54 @@ def gen_seed(rng):
     return rng.choice(["abc", "seed-1", "é", "0", "", " ", "run-a-001", "run-b-001"])
 
 
+def gen_consumer(rng):
+    """A component that is handed a seed and must then follow CobaRandom(seed): SafeLearner sampling from a learner's PMF (optionally
+    wrapped around another SafeLearner that is used as well), SequentialCB playing a PMF learner."""
+    k = weighted(rng, [("consumer_safe", 2), ("consumer_seqcb", 1)])
+    seed = weighted(rng, [(0, 2), (0.0, 1), (gen_seed(rng), 5)])
+    if isinstance(seed, str):
+        seed = 7
+    if k == "consumer_safe":
+        return [k, [seed, 2 + rng.randrange(5), rng.random() < 0.5, rng.choice([seed, 3, 11])]]
+    return [k, [seed, 2 + rng.randrange(5)]]
+
+
+def _pmf(t, k=3):
+    w = [1 + ((t + i) % 3) for i in range(k)]
+    return [x / sum(w) for x in w]
+
+
+def do_consumer(call):
+    from checks import components as K
+    from coba.safety import SafeLearner
+    m, a = call
+    acts = [0, 1, 2]
+    if m == "consumer_safe":
+        seed, n, wrap, inner_seed = a
+        pl = K.PMFLearner("c")
+        inner = SafeLearner(pl, inner_seed) if wrap else pl
+        sl = SafeLearner(inner, seed)
+        out = []
+        for t in range(n):
+            if wrap and t % 2 == 1:
+                inner.predict(None, acts)            # the inner wrapper is in use as well: its stream is its own
+            act, p, kw = sl.predict(None, acts)
+            out.append(act)
+            sl.learn(None, act, 1.0, p)
+        return out
+    import coba as cb
+    seed, n = a
+    rows = list(cb.SequentialCB(seed=seed, record=["action"]).evaluate(K.TaggedEnv("S", n, 3), K.PMFLearner("c")))
+    return [r["action"] for r in rows]
+
+
+def consumer_expected(call):
+    from coba.random import CobaRandom
+    seed, n = call[1][0], call[1][1]
+    g = CobaRandom(seed)
+    return [g.choicew([0, 1, 2], _pmf(t))[0] for t in range(n)]
+
+
 def gen_call(rng):
     m = weighted(rng, [("random", 4), ("randoms", 2), ("randint", 3), ("randints", 2), ("shuffle", 3), ("choice", 3),
                        ("choicew", 3), ("gauss", 3), ("gausses", 1), ("choicew_buf", 1)])
@@ -107,6 +155,8 @@ def gen_call(rng):
 
 def do_call(g, call):
     m, a = call
+    if m.startswith("consumer_"):
+        return do_consumer(call)
     if m == "shuffle":
         items = list(a[0])
         out = g.shuffle(items, a[1])
@@ -122,6 +172,13 @@ def do_call(g, call):
 
 
 def contract(call, val):
+    if call[0].startswith("consumer_"):
+        want = consumer_expected(call)
+        return None if list(val) == want else f"seed_not_followed: the component given seed {call[1][0]!r} played {list(val)} but CobaRandom({call[1][0]!r}) gives {want}"
+    return _contract(call, val)
+
+
+def _contract(call, val):
     """Return None if val honours the documented contract of the call, else a message."""
     m, a = call
     if m in ("random", "randoms"):
@@ -224,13 +281,16 @@ class C05:
     def gen(self, rng, tier, index):
         callers = []
         for _ in range(weighted(rng, [(2, 3), (3, 3), (4, 2), (5, 1)])):
-            callers.append({"seed": gen_seed(rng), "script": [gen_call(rng) for _ in range(2 + rng.randrange(7))],
+            callers.append({"seed": gen_seed(rng), "script": [gen_consumer(rng) if rng.random() < 0.08 else gen_call(rng) for _ in range(2 + rng.randrange(7))],
                             "in_process": rng.random() < 0.3})
         if rng.random() < 0.3 and len(callers) >= 2:
             callers[1]["seed"] = callers[0]["seed"]       # equal seeds must not couple the instances
         inter = []
         for _ in range(rng.randrange(0, 10)):
-            k = weighted(rng, [("mod_seed", 2), ("mod_draw", 3), ("std", 2), ("new", 2), ("pickle", 1)])
+            k = weighted(rng, [("mod_seed", 2), ("mod_draw", 3), ("std", 2), ("new", 2), ("pickle", 1), ("store_seed", 1)])
+            if k == "store_seed":
+                inter.append([k, rng.choice([1, 5])])
+                continue
             if k == "mod_seed":
                 inter.append([k, rng.choice([None, 1, callers[0]["seed"]])])
             elif k == "mod_draw":
@@ -276,6 +336,9 @@ class C05:
                         _stdrandom.seed(step[1]); _stdrandom.random()
                     elif k == "new":
                         g2 = CobaRandom(step[1]); do_call(g2, step[2]); del g2
+                    elif k == "store_seed":
+                        from coba.context import CobaContext
+                        CobaContext.store["experiment_seed"] = step[1]     # what Experiment.run leaves there while it runs
                     elif k == "pickle":
                         g = gens[step[1]]
                         if g is not None:
